@@ -22,19 +22,31 @@ import (
 type recExp struct {
 	victim string   // WRITE | SETATTR
 	steps  []string // intruder script
+	pre    string   // "restart": the server is restarted before the victim starts (the allocator then hands out the lowest free number)
 }
 
 func recycleExps() []recExp {
 	var out []recExp
 	for _, v := range []string{"WRITE", "SETATTR", "SETATTR0"} {
 		out = append(out,
-			recExp{v, []string{"remove", "finish", "cycle", "create", "writeg"}},
-			recExp{v, []string{"remove", "finish", "cycle", "mkdir"}},
-			recExp{v, []string{"remove", "finish", "cycle", "symlink"}},
-			recExp{v, []string{"remove", "finish"}},
-			recExp{v, []string{"finish"}},
-			recExp{v, []string{"remove", "finish", "cycle", "create", "writeg", "removeg"}},
-			recExp{v, []string{"rename", "finish", "cycle", "create", "writeg"}},
+			recExp{v, []string{"remove", "finish", "cycle", "create", "writeg"}, ""},
+			recExp{v, []string{"remove", "finish", "cycle", "mkdir"}, ""},
+			recExp{v, []string{"remove", "finish", "cycle", "symlink"}, ""},
+			recExp{v, []string{"remove", "finish"}, ""},
+			recExp{v, []string{"finish"}, ""},
+			recExp{v, []string{"remove", "finish", "cycle", "create", "writeg", "removeg"}, ""},
+			recExp{v, []string{"rename", "finish", "cycle", "create", "writeg"}, ""},
+		)
+	}
+	// a directory handle: REMOVE/LOOKUP of an entry with a smaller number gives up the directory's lock to re-lock in order;
+	// meanwhile the entry is moved out, the directory removed, its number given to a new directory and the entry moved in
+	// there under the same name. The old handle is dead: the victim may have acted before all that, or must be refused.
+	for _, v := range []string{"REMOVED", "LOOKUPD"} {
+		out = append(out,
+			recExp{v, []string{"moveout", "rmdirD", "cycle", "mkdirE", "movein"}, ""},
+			recExp{v, []string{"moveout", "rmdirD", "mkdirE", "movein"}, "restart"}, // (no trip round the ring: the directory's cached inode stays cached)
+			recExp{v, []string{"moveout", "rmdirD", "mkdirE"}, "restart"},
+			recExp{v, []string{"moveout", "rmdirD"}, ""},
 		)
 	}
 	return out
@@ -147,6 +159,15 @@ func runRecycle(k int, e recExp, t *Trace, seg int) int {
 	f := mk(0, "CREATE", root, "f")
 	fhF := f.RFh
 	mk(0, "CREATE", root, "h")
+	// c0 gets a number below D's and is moved into D as "c"
+	mk(0, "CREATE", root, "c0")
+	dD := mk(0, "MKDIR", root, "D")
+	{
+		c := NewCall("RENAME")
+		c.Fh, c.Name, c.Fh2, c.Name2 = root, "c0", dD.RFh, "c"
+		do(0, c, true)
+	}
+	fhE := ""
 	w := NewCall("WRITE")
 	w.Fh, w.Off, w.Cnt, w.DLen, w.Data, w.Stable = fhF, 0, 3000, 3000, []Run{{3000, 50}}, 2
 	do(0, w, true)
@@ -156,6 +177,27 @@ func runRecycle(k int, e recExp, t *Trace, seg int) int {
 	sa = NewCall("SETATTR")
 	sa.Fh, sa.SetSize, sa.Size = fhF, true, 4096 // the rest is freed by the background shrinker, which is held
 	do(0, sa, true)
+	released := false
+	release := func() {
+		if !released {
+			released = true
+			atomic.StoreInt32(&holdShr, 0)
+			close(releaseShr)
+		}
+	}
+	if e.pre == "restart" {
+		release()
+		s.WaitIdle()
+		s.Shutdown()
+		s2, err := Start(d, true)
+		if err != nil {
+			panic(err)
+		}
+		s = s2
+		mu.Lock()
+		hist = append(hist, HEv{Ev: "restart", Seq: atomic.AddInt64(&seq, 1)})
+		mu.Unlock()
+	}
 	// victim
 	var v *Call
 	switch e.victim {
@@ -165,6 +207,12 @@ func runRecycle(k int, e recExp, t *Trace, seg int) int {
 	case "SETATTR":
 		v = NewCall("SETATTR")
 		v.Fh, v.SetSize, v.Size = fhF, true, 100
+	case "REMOVED":
+		v = NewCall("REMOVE")
+		v.Fh, v.Name, v.NLen = dD.RFh, "c", 1
+	case "LOOKUPD":
+		v = NewCall("LOOKUP")
+		v.Fh, v.Name, v.NLen = dD.RFh, "c", 1
 	default:
 		v = NewCall("SETATTR")
 		v.Fh, v.SetSize, v.Size = fhF, true, 0
@@ -186,14 +234,6 @@ func runRecycle(k int, e recExp, t *Trace, seg int) int {
 		window = true
 	case <-vdone:
 	case <-time.After(10 * time.Second):
-	}
-	released := false
-	release := func() {
-		if !released {
-			released = true
-			atomic.StoreInt32(&holdShr, 0)
-			close(releaseShr)
-		}
 	}
 	var fhG string
 	bad := false
@@ -239,6 +279,31 @@ func runRecycle(k int, e recExp, t *Trace, seg int) int {
 						rm = "RMDIR"
 					}
 					mk(2, rm, dd, "g")
+				}
+			case "moveout":
+				c := NewCall("RENAME")
+				c.Fh, c.Name, c.Fh2, c.Name2 = dD.RFh, "c", root, "c2"
+				do(2, c, true)
+			case "rmdirD":
+				mk(2, "RMDIR", root, "D")
+			case "mkdirE":
+				for i := 0; i < 300; i++ {
+					c := mk(2, "MKDIR", root, "E")
+					if c.St != "OK" {
+						bad = true
+						break
+					}
+					if c.RId == dD.RId {
+						fhE = c.RFh
+						break
+					}
+					mk(2, "RMDIR", root, "E")
+				}
+			case "movein":
+				if fhE != "" {
+					c := NewCall("RENAME")
+					c.Fh, c.Name, c.Fh2, c.Name2 = root, "c2", fhE, "c"
+					do(2, c, true)
 				}
 			case "writeg":
 				if fhG != "" {
